@@ -1,2 +1,257 @@
-// streams without a model verdict (included by bin/c14.rs)
-pub async fn observed_streams(_rng: &mut Rng, _out: &mut Out, _stats: &mut serde_json::Map<String, serde_json::Value>) {}
+// streams without a model verdict: mutated requests (b), malformed rows through the ingestion
+// entry points (d), arbitrary bytes deserialised as wire types (e), and the corpus of inputs
+// kept from earlier failures (replayed first). Observation: [panics during the input; probe answered]
+// (included by bin/c14.rs)
+use discret::verif_hooks::database::room_node::RoomNode;
+use discret::verif_hooks::database::system_entities::Invite;
+use discret::verif_hooks::network::multicast::MulticastMessage;
+use discret::verif_hooks::network::ConnectionInfo;
+use discret::verif_hooks::synchronisation::{Answer, IdentityAnswer, QueryProtocol, RemoteEvent};
+
+const CORPUS: &str = "/verif/corpus/C14";
+
+fn obs_model() -> String { mut_model(&mut_entities()) + "\nobs { Person { name: String, age: Integer nullable, pets: [obs.Pet] nullable, best: obs.Pet nullable, data: Json nullable } Pet { name: String } }" }
+
+const BASE_QUERIES: [&str; 6] = [
+    "query { obs.Person { name age pets { name } } }",
+    "query q { p: obs.Person (order_by(name asc), first 3, skip 1, age > 3, name != \"x\") { id mdate name best { id name } } }",
+    "query { obs.Person (search(\"kiki\")) { name cnt: pets { c: count() } } }",
+    "query { obs.Person (nullable(pets), after($a), order_by(age desc)) { name a: data->$.x.y[0] pets(name=$n) { name } } }",
+    "query { obs.Pet (before(\"z\"), order_by(name desc)) { name } c14.M1 { f0 f1 f2 f3 f4 f5 } }",
+    "query { obs.Person { total: sum(age) mx: max(age) mn: min(age) av: avg(age) } }",
+];
+const BASE_MUTATIONS: [&str; 4] = [
+    "mutate { obs.Person { name: \"a\" age: 4 pets: [{name:\"kiki\"}, {name:\"koko\"}] best: {name:\"b\"} data: \"{\\\"x\\\":1}\" } }",
+    "mutate m { p: obs.Person { name: $n age: $a data: $d } }",
+    "mutate { c14.M1 { f0: true f1: 1.5 f2: \"AAAA\" f3: -3 f4: \"s\" f5: \"[1]\" } }",
+    "mutate { obs.Person { id: $id pets: null best: null } }",
+];
+const BASE_DELETIONS: [&str; 2] = ["delete { obs.Person { $id } }", "delete d { obs.Person { $id pets[$a, $b] } obs.Pet { $b } }"];
+const BASE_MODELS: [&str; 2] = [
+    "obs { Person { name: String, age: Integer nullable, pets: [obs.Pet] nullable, best: obs.Pet nullable, data: Json nullable, extra: String default \"e\", index(name, age) } Pet { name: String } @deprecated Old(no_full_text_index) { v: Float default 1.5 } }",
+    "{ Loose { a: Boolean default true, @deprecated b: Base64 nullable } }",
+];
+const BASE_PARAMS: [&str; 2] = [r#"{"n":"x","a":3,"d":"{}","id":"AAAAAAAAAAAAAAAAAAAAAA","b":null,"f":1.5}"#, r#"{"a":18446744073709551615,"b":-9223372036854775808,"c":1e400}"#];
+
+fn tokens(s: &str) -> Vec<String> {
+    let mut v: Vec<String> = vec![]; let mut cur = String::new();
+    for c in s.chars() {
+        if c.is_alphanumeric() || c == '_' || c == '$' || c == '.' { cur.push(c); }
+        else { if !cur.is_empty() { v.push(std::mem::take(&mut cur)); } v.push(c.to_string()); }
+    }
+    if !cur.is_empty() { v.push(cur); }
+    v
+}
+const JUNK: [&str; 16] = ["\"", "\\", "{", "}", "[", "]", "(", ")", "$", ":", "\u{0}", "\u{202e}", "'", "--", "/*", "\u{1F600}"];
+fn mutate_text(rng: &mut Rng, base: &str) -> (String, &'static str) {
+    let mut t = tokens(base);
+    match rng.below(12) {
+        0 | 1 => { let i = rng.below(t.len() as u64) as usize; t.remove(i); (t.concat(), "token deleted") }
+        2 | 3 => { let i = rng.below(t.len() as u64) as usize; let x = t[i].clone(); t.insert(i, x); (t.concat(), "token duplicated") }
+        4 | 5 => { let i = rng.below(t.len() as u64 - 1) as usize; t.swap(i, i + 1); (t.concat(), "tokens swapped") }
+        6 => { let n = base.chars().count(); let k = rng.below(n as u64) as usize; (base.chars().take(k).collect(), "truncated") }
+        7 | 8 => { let i = rng.below(t.len() as u64) as usize; t.insert(i, (*rng.pick(&JUNK)).to_string()); (t.concat(), "junk inserted") }
+        9 => { let i = rng.below(t.len() as u64) as usize; t[i] = (*rng.pick(&["null", "true", "-0", "1e999", "99999999999999999999", "\"\"", "$zz", "_x", "sys.Room", "id", "room_id", "0.5", "nullable", "first 0"])).to_string(); (t.concat(), "token replaced") }
+        10 => { // oversized
+            match rng.below(4) {
+                0 => (base.replace("name", &"n".repeat(20000)), "identifier of 20000 characters"),
+                1 => (base.replacen('{', &format!("{{ {} ", "name ".repeat(3000)), 2), "3000 repeated fields"),
+                2 => (base.replace("\"a\"", &format!("\"{}\"", "x".repeat(400_000))).replace("\"kiki\"", &format!("\"{}\"", "y".repeat(400_000))), "400 kB string literal"),
+                _ => (format!("{}{}", base, " ".repeat(100_000)), "100 kB of trailing blanks"),
+            } }
+        _ => { // nesting
+            let d = 30 + rng.below(30) as usize;
+            (format!("{}{}{}", base.trim_end_matches(|c| c == '}' || c == ' '), " pets { name ".repeat(d), "}".repeat(d + 2)), "deep nesting") }
+    }
+}
+fn params_for(rng: &mut Rng) -> Parameters {
+    let mut p = Parameters::default();
+    let _ = p.add("n", "x".to_string()); let _ = p.add("a", rng.range(-5, 50)); let _ = p.add("d", "{\"x\":[1]}".to_string());
+    let _ = p.add("id", base64_encode(&new_uid())); let _ = p.add("b", base64_encode(&new_uid())); let _ = p.add("zz", 1i64);
+    p
+}
+
+struct ObsRun { inst: Inst, model: String, restarts: usize }
+impl ObsRun {
+    async fn exec(&mut self, api: &str, text: &str) -> (i64, i64, i64) {
+        if !self.inst.healthy { let m = self.model.clone(); let old = std::mem::replace(&mut self.inst, Inst::start(&m).await); old.close(); self.restarts += 1; }
+        let before = panics();
+        let mut rng = Rng(text.len() as u64);
+        let o = match api {
+            "query" => call(self.inst.app.query(text, Some(params_for(&mut rng)))).await,
+            "mutate" => call(self.inst.app.mutate(text, Some(params_for(&mut rng)))).await,
+            "delete" => call(self.inst.app.delete(text, Some(params_for(&mut rng)))).await,
+            "datamodel" => call(self.inst.app.update_data_model(text)).await,
+            "paramsjson" => sync_call(std::panic::AssertUnwindSafe(|| Parameters::from_json(text))),
+            _ => panic!("unknown api {}", api),
+        };
+        let p = self.inst.probe(true).await as i64;
+        let d = (panics() - before) as i64;
+        if d > 0 || p == 0 || o >= 2 { self.inst.healthy = false; }
+        (o, d, p)
+    }
+}
+fn save_corpus(stream: u64, api: &str, text: &str, why: &str) {
+    let _ = std::fs::create_dir_all(CORPUS);
+    let h = blake3::hash(text.as_bytes()).to_hex()[..12].to_string();
+    let path = format!("{}/auto_{}_{}.json", CORPUS, api, h);
+    if !std::path::Path::new(&path).exists() {
+        let _ = std::fs::write(path, serde_json::to_string_pretty(&json!({"stream": stream, "api": api, "text": text, "why": why})).unwrap());
+    }
+}
+/// shrink a failing text by deleting chunks while it still fails (bounded)
+async fn shrink(run: &mut ObsRun, api: &str, text: &str) -> String {
+    let mut cur: Vec<char> = text.chars().collect();
+    let mut chunk = cur.len() / 2;
+    let mut budget = 24;
+    while chunk >= 1 && budget > 0 {
+        let mut i = 0; let mut progressed = false;
+        while i + chunk <= cur.len() && budget > 0 {
+            let cand: String = cur[..i].iter().chain(cur[i + chunk..].iter()).collect();
+            budget -= 1;
+            let (o, d, p) = run.exec(api, &cand).await;
+            if d > 0 || p == 0 || o >= 2 { cur = cand.chars().collect(); progressed = true; } else { i += chunk; }
+        }
+        if !progressed { chunk /= 2; }
+    }
+    cur.into_iter().collect()
+}
+
+fn bincode_probe(ty: u64, bytes: &[u8]) -> i64 {
+    let r = std::panic::catch_unwind(|| match ty {
+        0 => bincode::deserialize::<QueryProtocol>(bytes).is_ok(),
+        1 => bincode::deserialize::<Answer>(bytes).is_ok(),
+        2 => bincode::deserialize::<RemoteEvent>(bytes).is_ok(),
+        3 => bincode::deserialize::<Invite>(bytes).is_ok(),
+        4 => bincode::deserialize::<IdentityAnswer>(bytes).map(|a| a.verify(&[1, 2, 3]).is_ok()).unwrap_or(false),
+        5 => bincode::deserialize::<Node>(bytes).map(|n| n.verify().is_ok()).unwrap_or(false),
+        6 => bincode::deserialize::<RoomNode>(bytes).map(|n| n.check_consistency().is_ok()).unwrap_or(false),
+        7 => bincode::deserialize::<MulticastMessage>(bytes).is_ok(),
+        8 => bincode::deserialize::<ConnectionInfo>(bytes).is_ok(),
+        9 => bincode::deserialize::<Vec<Edge>>(bytes).map(|v| v.iter().all(|e| e.verify().is_ok())).unwrap_or(false),
+        _ => bincode::deserialize::<Vec<NodeDeletionEntry>>(bytes).map(|v| v.iter().all(|e| e.verify().is_ok())).unwrap_or(false),
+    });
+    match r { Err(_) => 2, Ok(true) => 0, Ok(false) => 1 }
+}
+
+pub async fn observed_streams(rng: &mut Rng, out: &mut Out, stats: &mut serde_json::Map<String, serde_json::Value>) {
+    let model = obs_model();
+    let mut run = ObsRun { inst: Inst::start(&model).await, model: model.clone(), restarts: 0 };
+    run.inst.app.mutate(BASE_MUTATIONS[0], None).await.unwrap();
+    let mut accepted = [0usize; 8]; let mut total = [0usize; 8];
+
+    // ---- corpus first (inputs kept from earlier failures; entries carrying a model term are
+    //      the witnesses of the listed classes and are judged against the model)
+    let mut entries: Vec<std::path::PathBuf> = std::fs::read_dir(CORPUS).map(|d| d.flatten().map(|e| e.path()).filter(|p| p.extension().map(|e| e == "json").unwrap_or(false)).collect()).unwrap_or_default();
+    entries.sort();
+    for path in entries {
+        let v: serde_json::Value = match std::fs::read_to_string(&path).ok().and_then(|s| serde_json::from_str(&s).ok()) { Some(v) => v, None => continue };
+        let api = v["api"].as_str().unwrap_or("query").to_string();
+        let text = v["text"].as_str().unwrap_or("").to_string();
+        let name = path.file_name().unwrap().to_string_lossy().to_string();
+        if api == "bincode" {
+            let bytes = hex::decode(&text).unwrap_or_default();
+            let o = bincode_probe(v["type"].as_u64().unwrap_or(0), &bytes);
+            out.push(Case { kind: "corpus".into(), coq: "CObs 7%N".into(), obs: vec![(o == 2) as i64, 1], meta: json!({"file": name}) });
+            continue;
+        }
+        if let Some(term) = v["coq"].as_str() {
+            // a witness with a model term: fresh instance with the model the entry names
+            let m = v["model"].as_str().map(|s| s.to_string()).unwrap_or_else(|| model.clone());
+            let inst = Inst::start(&m).await;
+            let mut p = Parameters::default();
+            if let Some(ps) = v["params"].as_object() { for (k, val) in ps { match val { serde_json::Value::Null => p.add_null(k).unwrap(), serde_json::Value::String(s) => p.add(k, s.clone()).unwrap(), serde_json::Value::Bool(b) => p.add(k, *b).unwrap(), other => p.add(k, other.as_i64().unwrap_or(0)).unwrap() } } }
+            let o = if api == "mutate" { call(inst.app.mutate(&text, Some(p))).await } else { call(inst.app.query(&text, Some(p))).await };
+            let pr = inst.probe(false).await as i64;
+            inst.close();
+            out.push(Case { kind: "corpus".into(), coq: term.to_string(), obs: vec![o, pr], meta: json!({"file": name, "text": text}) });
+            continue;
+        }
+        let (o, d, p) = run.exec(&api, &text).await;
+        out.push(Case { kind: "corpus".into(), coq: format!("CObs {}", gn(v["stream"].as_u64().unwrap_or(1))), obs: vec![d, p], meta: json!({"file": name, "outcome": o, "panic": if d > 0 { last_panic() } else { String::new() }}) });
+    }
+
+    // ---- (b) mutated requests
+    let groups: [(&str, u64, &[&str]); 5] = [("query", 1, &BASE_QUERIES), ("mutate", 2, &BASE_MUTATIONS), ("delete", 3, &BASE_DELETIONS), ("datamodel", 4, &BASE_MODELS), ("paramsjson", 5, &BASE_PARAMS)];
+    let n_b = scale(900, 9000);
+    for i in 0..n_b {
+        let (api, stream, bases) = groups[[0usize, 0, 0, 1, 1, 1, 2, 3, 4][rng.below(9) as usize]];
+        let base = *rng.pick(bases);
+        let (text, how) = if i < 19 { (bases[i % bases.len()].to_string(), "unchanged") } else { let (t, h) = mutate_text(rng, base); if rng.chance(1, 5) { let (t2, _) = mutate_text(rng, &t); (t2, h) } else { (t, h) } };
+        let (o, d, p) = run.exec(api, &text).await;
+        total[stream as usize] += 1; if o == 0 { accepted[stream as usize] += 1; }
+        let mut meta = json!({"api": api, "how": how, "outcome": o, "len": text.len()});
+        if d > 0 || p == 0 || o >= 2 {
+            let small = if text.len() < 5000 { shrink(&mut run, api, &text).await } else { text.clone() };
+            save_corpus(stream, api, &small, &format!("{} -> outcome {} panics {} probe {} {}", how, o, d, p, last_panic()));
+            meta["text"] = json!(small.chars().take(600).collect::<String>()); meta["panic"] = json!(last_panic());
+        }
+        out.push(Case { kind: format!("mutated-{}", api), coq: format!("CObs {}", gn(stream)), obs: vec![d + (o >= 2 && d == 0) as i64, p], meta });
+    }
+
+    // ---- (d) malformed rows through the ingestion entry points
+    let sk = Ed25519SigningKey::create_from(&random32());
+    let room_id = {
+        let mut p = Parameters::default();
+        p.add("user_id", base64_encode(&run.inst.vk)).unwrap();
+        let room = run.inst.app.mutate_raw(r#"mutate { sys.Room{ admin:[{verif_key:$user_id}] authorisations:[{ name:"g" rights:[{entity:"*" mutate_self:true mutate_all:true}] users:[{verif_key:$user_id}] }] } }"#, Some(p)).await.unwrap();
+        room.mutate_entities[0].node_to_mutate.id
+    };
+    let n_d = scale(160, 1600);
+    for _ in 0..n_d {
+        if !run.inst.healthy { let old = std::mem::replace(&mut run.inst, Inst::start(&model).await); old.close(); run.restarts += 1; }
+        let before = panics();
+        let (row, _) = gen_row(rng, &sk, rng.clone().chance(1, 6));
+        let rid = if rng.chance(1, 5) { new_uid() } else { room_id };
+        let what; let o;
+        match row {
+            Row::Node(mut n) => {
+                if rng.chance(1, 2) { n.room_id = Some(rid); }
+                if rng.chance(1, 3) { n._entity = (*rng.pick(&["1.0", "9.9", "", "0.0", "x'); DROP TABLE _node; --"])).to_string(); }
+                if rng.chance(1, 3) { n._json = Some((*rng.pick(&["{\"32\":null}", "{\"32\":{}}", "[]", "{", "{\"32\":1e999}", "\u{0}"])).to_string()); }
+                match rng.below(3) {
+                    0 => { what = "add_nodes"; let nti = NodeToInsert { id: n.id, node: if rng.chance(1, 8) { None } else { Some(n) }, ..Default::default() }; o = call(run.inst.app.add_nodes(rid, vec![nti])).await; }
+                    1 => { what = "add_peer_nodes"; o = call(run.inst.app.add_peer_nodes(vec![n])).await; }
+                    _ => { what = "add_room_node"; let rn = RoomNode { node: n, last_modified: 0, admin_edges: vec![], admin_nodes: vec![], auth_edges: vec![], auth_nodes: vec![] }; o = call(run.inst.app.add_room_node(rn)).await; }
+                }
+            }
+            Row::Edge(e) => { what = "add_edges"; o = call(run.inst.app.add_edges(rid, vec![e])).await; }
+            Row::NodeDel(mut d) => { what = "delete_nodes"; d.room_id = rid; o = call(run.inst.app.delete_nodes(vec![d])).await; }
+            Row::EdgeDel(mut d) => { what = "delete_edges"; d.room_id = rid; o = call(run.inst.app.delete_edges(vec![d])).await; }
+        }
+        let p = run.inst.probe(true).await as i64;
+        let d = (panics() - before) as i64;
+        total[6] += 1; if o == 0 { accepted[6] += 1; }
+        if d > 0 || p == 0 || o >= 2 { run.inst.healthy = false; }
+        out.push(Case { kind: "ingest".into(), coq: "CObs 6%N".into(), obs: vec![d + (o >= 2 && d == 0) as i64, p], meta: json!({"entry": what, "outcome": o, "panic": if d > 0 { last_panic() } else { String::new() }}) });
+    }
+    let restarts = run.restarts;
+    run.inst.close();
+
+    // ---- (e) arbitrary bytes as wire values
+    let samples: Vec<Vec<u8>> = vec![
+        bincode::serialize(&QueryProtocol { id: 1, query: discret::verif_hooks::synchronisation::Query::Nodes(new_uid(), vec![new_uid(), new_uid()]) }).unwrap(),
+        bincode::serialize(&Answer { id: 2, success: true, complete: false, serialized: vec![1, 2, 3, 4] }).unwrap(),
+        bincode::serialize(&RemoteEvent::RoomDataChanged(new_uid())).unwrap(),
+        bincode::serialize(&Invite { invite_id: new_uid(), application: "app".into(), invite_sign: vec![9; 64] }).unwrap(),
+        { let mut n = Node { _entity: "1.1".into(), _json: Some("{}".into()), ..Default::default() }; n.sign(&sk).unwrap(); bincode::serialize(&IdentityAnswer { peer: n, chall_signature: vec![1; 64] }).unwrap() },
+        { let mut n = Node { _entity: "1.1".into(), ..Default::default() }; n.sign(&sk).unwrap(); bincode::serialize(&n).unwrap() },
+    ];
+    let n_e = scale(1500, 30000);
+    let mut decoded = 0usize;
+    for i in 0..n_e {
+        let ty = rng.below(11);
+        let mut bytes: Vec<u8> = if rng.chance(1, 4) { (0..rng.below(200)).map(|_| rng.below(256) as u8).collect() } else { rng.pick(&samples).clone() };
+        if i >= 6 { for _ in 0..rng.below(4) { if bytes.is_empty() { break; } let k = rng.below(bytes.len() as u64) as usize; match rng.below(5) { 0 => { bytes[k] = rng.below(256) as u8; } 1 => { bytes.truncate(k); } 2 => { bytes[k] = 0xff; } 3 => { let l = bytes.len().min(k + 8); for b in &mut bytes[k..l] { *b = 0xff; } } _ => { bytes.insert(k, 0); } } } }
+        let ty = if i < 6 { [0u64, 1, 2, 3, 4, 5][i] } else { ty };
+        let bytes = if i < 6 { samples[i].clone() } else { bytes };
+        let o = bincode_probe(ty, &bytes);
+        if o == 0 { decoded += 1; }
+        if o == 2 { let _ = std::fs::create_dir_all(CORPUS); let h = hex::encode(&bytes); let _ = std::fs::write(format!("{}/auto_bincode_{}.json", CORPUS, &blake3::hash(&bytes).to_hex()[..12]), json!({"stream": 7, "api": "bincode", "type": ty, "text": h, "why": last_panic()}).to_string()); }
+        out.push(Case { kind: "wire-bytes".into(), coq: "CObs 7%N".into(), obs: vec![(o == 2) as i64, 1], meta: json!({"type": ty, "len": bytes.len(), "outcome": o, "panic": if o == 2 { last_panic() } else { String::new() }}) });
+    }
+    stats.insert("observed_accepted_by_stream".into(), json!(accepted));
+    stats.insert("observed_total_by_stream".into(), json!(total));
+    stats.insert("observed_instance_restarts".into(), json!(restarts));
+    stats.insert("wire_values_decoded_and_verified".into(), json!(decoded));
+}
